@@ -49,6 +49,14 @@ SCENARIOS = {
                         affinity_limits={'rack': 1, 'server': 1}, data_retention_timeout='2s')],
         groups={'proid.g1': 3},
         apps=['a1', 'a2', 'a3', 'a4']),
+    # the constants of MasterLag.tla: two equal servers, two small instances
+    'lag': dict(
+        racks={'rack:r1': ['s1', 's2']}, partitions=[], traits=[],
+        sprofiles=[dict(cap=[4096, 4, 4096], label='_default', traits=[])],
+        server_init={'s1': 1, 's2': 1},
+        allocsets=[[_alloc('proid/x', '_default', [('proid.web*', 1)])]],
+        aprofiles=[_man('proid.web', data_retention_timeout='0s')],
+        groups={}, apps=['a1', 'a2'], lag=True),
 }
 
 
@@ -72,6 +80,9 @@ def gen_random(scn, rng, depth):
             hist.append(('Deliver', []))
             deferred = False
         if r < 0.22:
+            if deferred:
+                # (a line of its own: the cycle line's pre-state is the drained view)
+                hist.append(('Deliver', []))
             deferred = False
             if alive:
                 if rng.random() < 0.25:
@@ -148,6 +159,8 @@ def gen_random(scn, rng, depth):
         else:
             hist.append(('Restart', []))
             alive = True
+    if deferred and alive:
+        hist.append(('Deliver', []))
     hist.append(('Cycle', []) if alive else ('Restart', []))
     hist.append(('Restart', []))
     return hist
@@ -301,6 +314,20 @@ def _validate_chunk(args):
                                                          'declared', 'oprio', 'loaded_sched', 'obs_down')}
                 for l in t['lines']]) for t in traces]), f)
         return tlc.validate(SPEC_DIR, 'MasterTrace', 'MasterTrace.cfg', path, timeout=timeout)
+    finally:
+        shutil.rmtree(work, ignore_errors=True)
+
+
+def validate_lag(traces, timeout=900):
+    """MasterLagTrace.tla over traces recorded on the 'lag' scenario."""
+    work = tlc.scratch('verif-lag-')
+    try:
+        path = os.path.join(work, 'batch.json')
+        with open(path, 'w') as f:
+            json.dump(dict(traces=[dict(tid=t['tid'], lines=[
+                {k: l[k] for k in ('ev', 'args', 'obs', 'crashed', 'noop', 'exc', 'order') if k in l}
+                for l in t['lines']]) for t in traces]), f)
+        return tlc.validate(SPEC_DIR, 'MasterLagTrace', 'MasterLagTrace.cfg', path, timeout=timeout)
     finally:
         shutil.rmtree(work, ignore_errors=True)
 
